@@ -17,11 +17,12 @@ Local Open Scope N_scope.
 (* The primitive: on  tag '=' content <anything>  with the announced size = the length of the
    content, extract_element_fixed_width returns the tag, the content UNCHANGED -- for arbitrary
    content bytes: SOH, '=', NUL, >= 0x80 -- and the number of bytes up to and including the
-   separator position.  (Induction on the tag digits and on the content.)  The bound
-   lenN content < vcap is val[FIX8_MAX_FLD_LENGTH]: contents of at most 2047 bytes. *)
+   separator position.  (Induction on the tag digits and on the content.)  The bounds are those
+   of the bounded extractor: lenN tag < tcap (room for the terminating NUL) and lenN content <
+   vcap = val[FIX8_MAX_FLD_LENGTH], i.e. contents of at most 2047 bytes. *)
 Theorem c06_fixed_width_exact :
   forall (tag content rest : list N) (sz tcap vcap : N),
-    all_digits tag -> lenN tag <= tcap -> 0 < tcap -> lenN content < vcap ->
+    all_digits tag -> lenN tag < tcap -> lenN content < vcap ->
     lenN tag + 1 + lenN content <= sz ->
     extract_element_fixed_width (tag ++ EQC :: content ++ rest) sz (lenN content) tcap vcap
     = XOk tag content (lenN tag + 1 + lenN content + 1).
@@ -31,7 +32,7 @@ Print Assumptions c06_fixed_width_exact.
 (* One turn of MessageBase::decode's loop (strict or permissive, any schema, any object state,
    any position in the string) standing at a pair  L=<n>|L+1=<content>|  with n = the decimal
    length of the content <= 2047, L a Length field not yet present, L+1 a data field of the same
-   table, both tags with the same number of digits (see the remark below): both fields are stored
+   table: both fields are stored
    -- the data field with value [cstr content], i.e. the content up to its first NUL -- and the
    loop continues with the rest of the string exactly behind the pair ("the fields after it
    decode correctly"), whatever bytes the content consists of. *)
@@ -46,7 +47,6 @@ Theorem c06_header_body_step :
   off + lenN tok1 + lenN tok2 <= fsize ->
   n <= MAX_FLD_LENGTH - 1 ->
   L + 1 < 65536 -> L <> Common_BodyLength ->
-  lenN (itoa_N (L + 1)) = lenN (itoa_N L) ->
   find_trait (mb_fp m) L = Some trL -> t_present trL = false -> t_ftype trL = ft_Length -> t_group trL = false ->
   find_trait (mb_fp m) (L + 1) = Some trD -> t_ftype trD = ft_data -> t_group trD = false ->
   find_be (c_fields c) L = Some tyL -> find_be (c_fields c) (L + 1) = Some tyD ->
@@ -64,9 +64,8 @@ Print Assumptions c06_header_body_step.
 (* c06_header_body_partial: the same with the exact boolean side conditions of the property:
    content without NUL, neither tag decoded before.  Then the _fields map of the object the loop
    continues with holds the Length text and the content itself.
-   Remark on  lenN (itoa_N (L+1)) = lenN (itoa_N L):  extract_element_fixed_width does not
-   NUL-terminate tag[]; for a pair like 99/100 the caller would read the data tag followed by
-   stale bytes of the buffer.  No pair of the schemas in scope has tags of different lengths. *)
+   (Since /repo ce1e2cc extract_element_fixed_width NUL-terminates tag[]: the former side condition
+   "both tags have the same number of digits" -- stale digits of the previous tag -- is gone.) *)
 Theorem c06_header_body_partial :
   forall (c : ctx) (cp : caps) (from : list N) (fsize : N) (permissive : bool) (gfuel : nat),
   cap_tag cp = MAX_FLD_LENGTH -> cap_val cp = MAX_FLD_LENGTH ->
@@ -79,7 +78,6 @@ Theorem c06_header_body_partial :
   off + lenN tok1 + lenN tok2 <= fsize ->
   n <= MAX_FLD_LENGTH - 1 ->
   L + 1 < 65536 -> L <> Common_BodyLength ->
-  lenN (itoa_N (L + 1)) = lenN (itoa_N L) ->
   find_trait (mb_fp m) L = Some trL -> t_present trL = false -> t_ftype trL = ft_Length -> t_group trL = false ->
   find_trait (mb_fp m) (L + 1) = Some trD -> t_ftype trD = ft_data -> t_group trD = false ->
   find_be (c_fields c) L = Some tyL -> find_be (c_fields c) (L + 1) = Some tyD ->
